@@ -94,7 +94,14 @@ class LocalSim(mosaik_api_v3.Simulator):
                         del d[a]
                     d.update(val)
                 else:
-                    out[key] = val
+                    # scalars (the optional output 'time') are only written when they CHANGE - as a simulator does that keeps
+                    # "the time I announced" in a variable and updates its reply when it announces a new one
+                    shadow = self.__dict__.setdefault("_shadow", {})
+                    if key not in shadow or shadow[key] != val:
+                        out[key] = val
+                        shadow[key] = val
+            for key in [k for k in self.__dict__.get("_shadow", {}) if k not in new]:
+                del self._shadow[key]
             return out
         return copy.deepcopy(rep.value)
 
